@@ -1344,7 +1344,30 @@ func directCase(d *doc, opName string, vars map[string]interface{}, dc graphql.F
 		sexp.T("table", tableSexp()), sexp.T("opname", sexp.Str(opName)), sexp.T("vars", varsSexp(vars)),
 		sexp.T("ops", d.opsSexp()), sexp.T("frags", d.fragsSexp()), sexp.T("max", zint(max)),
 		sexp.T("conns", sexp.L()), sexp.T("observed", observed), sexp.T("std", sexp.Int(std)),
-		sexp.T("env", envSexp()), sexp.T("xvars", xvarsSexp(d, vars)), sexp.T("calls", sexp.L(calls...)), sexp.T("query", sexp.Str(q)))
+		sexp.T("env", envSexp()), sexp.T("xvars", xvarsSexp(d, vars)), sexp.T("calls", sexp.L(calls...)),
+		sexp.T("varshape", sexp.Sym(directShape(vars))), sexp.T("query", sexp.Str(q)))
+}
+
+func apiShape(shape string, vars map[string]interface{}) string {
+	switch {
+	case shape == "absent":
+		return "key-absent"
+	case shape == "null":
+		return "null"
+	case len(vars) == 0:
+		return "empty-map"
+	}
+	return "map"
+}
+
+func directShape(vars map[string]interface{}) string {
+	if vars == nil {
+		return "nil-map"
+	}
+	if len(vars) == 0 {
+		return "empty-map"
+	}
+	return "map"
 }
 
 var defaultCosts = []graphql.FieldCost{{Resolver: 1}, {Resolver: 1}, {}, {Resolver: 2, Multiplier: 2}, {Resolver: 0, Multiplier: 1 << 31}, {Resolver: maxInt}}
@@ -1624,6 +1647,11 @@ func (a *apiUnderTest) seen() (bool, int) {
 
 // one request over the graphql-ws protocol: connection_init, start, read until complete
 func (a *apiUnderTest) overWS(query string, vars map[string]interface{}, opName string) (data interface{}, nerrs int) {
+	return a.overWSPayload(map[string]interface{}{"query": query, "variables": vars, "operationName": opName})
+}
+
+// the same with the start payload given as it is (the "variables" key may be missing or null)
+func (a *apiUnderTest) overWSPayload(payload map[string]interface{}) (data interface{}, nerrs int) {
 	conn, _, err := (&websocket.Dialer{Subprotocols: []string{"graphql-ws"}, HandshakeTimeout: 5 * time.Second}).Dial("ws"+strings.TrimPrefix(a.srv.URL, "http"), nil)
 	if err != nil {
 		panic(err)
@@ -1633,8 +1661,7 @@ func (a *apiUnderTest) overWS(query string, vars map[string]interface{}, opName 
 	if err := conn.WriteJSON(map[string]interface{}{"type": "connection_init", "payload": map[string]interface{}{}}); err != nil {
 		panic(err)
 	}
-	if err := conn.WriteJSON(map[string]interface{}{"id": "1", "type": "start",
-		"payload": map[string]interface{}{"query": query, "variables": vars, "operationName": opName}}); err != nil {
+	if err := conn.WriteJSON(map[string]interface{}{"id": "1", "type": "start", "payload": payload}); err != nil {
 		panic(err)
 	}
 	for {
@@ -2034,14 +2061,38 @@ func apiCase(r *rng.R, apis []*apiUnderTest, dcs []graphql.FieldCost) sexp.Node 
 		vars["n1"] = rng.Pick(r, []int{0, 1, 4})
 	}
 	which := r.Intn(len(apis))
-	a := apis[which]
-	q := d.text()
-	assertShape(q, d.opsSexp(), d.fragsSexp())
 	route := "apifu"
 	if r.Chance(1, 6) {
 		route = "apifu-ws"
 	} else if r.Chance(1, 5) {
 		route = "apifu-pq"
+	}
+	return runAPI(d, vars, "map", route, apis[which], dcs[which])
+}
+
+// runAPI serves one request on one of the apifu routes and writes the case.  shape says how the
+// variables travel: "map" (the map as it is, possibly empty), "absent" (no "variables" key at all),
+// "null" ("variables": null); for the last two the request has no variable values.
+func runAPI(d *doc, vars map[string]interface{}, shape, route string, a *apiUnderTest, dc graphql.FieldCost) sexp.Node {
+	apiMode = true
+	defer func() { apiMode = false }()
+	q := d.text()
+	assertShape(q, d.opsSexp(), d.fragsSexp())
+	payload := func(withQuery bool) map[string]interface{} {
+		p := map[string]interface{}{"operationName": "Q"}
+		if withQuery {
+			p["query"] = q
+		}
+		switch shape {
+		case "map":
+			p["variables"] = vars
+		case "null":
+			p["variables"] = nil
+		}
+		return p
+	}
+	if shape != "map" {
+		vars = nil
 	}
 	a.reset()
 	var observed sexp.Node
@@ -2055,39 +2106,29 @@ func apiCase(r *rng.R, apis []*apiUnderTest, dcs []graphql.FieldCost) sexp.Node 
 				observed = sexp.Sym("panic")
 			}
 		}()
-		var data interface{}
-		var ne int
 		// HTTP first, also for the websocket route: a panic of the code under test on the websocket
 		// route happens in a goroutine of the library that nobody recovers and would take the harness
 		// process down; the same request over HTTP panics in this goroutine, where it is caught
-		body, _ := json.Marshal(map[string]interface{}{"query": q, "variables": vars, "operationName": "Q"})
-		hr := httptest.NewRequest("POST", "/graphql", bytes.NewReader(body))
-		hr.Header.Set("Content-Type", "application/json")
-		w := httptest.NewRecorder()
-		a.api.ServeGraphQL(w, hr)
-		var resp struct {
-			Data   interface{}
-			Errors []interface{}
-		}
-		if err := json.Unmarshal(w.Body.Bytes(), &resp); err != nil {
-			panic(err)
-		}
-		data, ne = resp.Data, len(resp.Errors)
+		data, ne, raw := a.post(payload(true))
 		if debug && ne > 0 {
-			fmt.Fprintln(os.Stderr, "DEBUG apifu", q, w.Body.String())
+			fmt.Fprintln(os.Stderr, "DEBUG apifu", q, raw)
 		}
 		if route == "apifu-ws" {
 			a.reset()
-			data, ne = a.overWS(q, vars, "Q")
+			data, ne = a.overWSPayload(payload(true))
 		}
 		if route == "apifu-pq" {
 			// Apollo persisted queries: register the query with its hash, then send the hash alone;
 			// the cost observed is that of the request served from the store
 			sum := sha256.Sum256([]byte(q))
 			ext := map[string]interface{}{"persistedQuery": map[string]interface{}{"version": 1, "sha256Hash": hex.EncodeToString(sum[:])}}
-			a.post(map[string]interface{}{"query": q, "variables": vars, "operationName": "Q", "extensions": ext})
+			p1 := payload(true)
+			p1["extensions"] = ext
+			a.post(p1)
 			a.reset()
-			data, ne, _ = a.post(map[string]interface{}{"variables": vars, "operationName": "Q", "extensions": ext})
+			p2 := payload(false)
+			p2["extensions"] = ext
+			data, ne, _ = a.post(p2)
 		}
 		if ran, cost := a.seen(); ran {
 			observed = sexp.L(sexp.Int(0), actualSexp(cost), sexp.Int(0), actualSexp(cost))
@@ -2096,13 +2137,99 @@ func apiCase(r *rng.R, apis []*apiUnderTest, dcs []graphql.FieldCost) sexp.Node 
 			observed = sexp.L(sexp.Int(ne), sexp.Sym("unset"), sexp.Int(ne), sexp.Sym("unset"))
 		}
 	}()
-	dc := dcs[which]
 	return sexp.T("case", sexp.T("route", sexp.Sym(route)),
 		sexp.T("default", sexp.Int(dc.Resolver), sexp.Int(dc.Multiplier)),
 		sexp.T("table", tableSexp()), sexp.T("opname", sexp.Str("Q")), sexp.T("vars", varsSexp(vars)),
 		sexp.T("ops", d.opsSexp()), sexp.T("frags", d.fragsSexp()), sexp.T("max", sexp.Int(-1)),
 		sexp.T("conns", sexp.L(conns...)), sexp.T("observed", observed),
-		sexp.T("timed", sexp.Bool(strings.Contains(q, ": timed("))), sexp.T("query", sexp.Str(q)))
+		sexp.T("timed", sexp.Bool(strings.Contains(q, ": timed("))),
+		sexp.T("varshape", sexp.Sym(apiShape(shape, vars))), sexp.T("query", sexp.Str(q)))
+}
+
+// ---------------------------------------------------------------------------------------------
+// systematic: (kind of variable feeding a cost-relevant argument) x (shape of the variable map)
+// ---------------------------------------------------------------------------------------------
+type varKind struct {
+	decl varDecl
+	tag  string
+}
+
+func varKinds(name string) []varKind {
+	return []varKind{
+		{varDecl{name: name, hasDef: true, def: 3}, "default"},
+		{varDecl{name: name}, "plain"},
+		{varDecl{name: name, nonnull: true}, "nonnull"},
+		{varDecl{name: name, nonnull: true, hasDef: true, def: 2}, "nonnull-default"},
+		{varDecl{name: name, hasDef: true, defNull: true}, "default-null"},
+	}
+}
+
+// the shapes of the variable map for a variable x next to an unrelated declared variable u
+type varShape struct {
+	tag  string
+	vars map[string]interface{}
+}
+
+func varShapes() []varShape {
+	return []varShape{
+		{"nil", nil},
+		{"empty", map[string]interface{}{}},
+		{"unrelated-undeclared", map[string]interface{}{"zz": 1}},
+		{"unrelated-declared", map[string]interface{}{"u": 2}},
+		{"null", map[string]interface{}{"x": nil}},
+		{"value", map[string]interface{}{"x": 1}},
+		{"value-and-unrelated", map[string]interface{}{"x": 2, "u": 3}},
+	}
+}
+
+func sv(v string) argSrc { return argSrc{kind: srcVar, v: v} }
+
+// direct route: documents whose costs depend on $x (and on the unrelated $u: Int = 1)
+func varDocs(k varKind) []*doc {
+	u := varDecl{name: "u", hasDef: true, def: 1}
+	mk := func(kids ...*sel) *doc {
+		d := &doc{ops: []opDef{{name: "Q", kids: kids}}, vars: []varDecl{k.decl, u}}
+		return d
+	}
+	unrelated := fa("Obj", "t", []argSrc{sv("u"), {}}, f("Obj", "leaf"))
+	unrelated.alias = "zu"
+	var out []*doc
+	out = append(out, mk(fa("Obj", "d", []argSrc{sv("x"), sv("x")}, f("Obj", "leaf")), unrelated))
+	out = append(out, mk(fa("Obj", "t", []argSrc{sv("x"), sv("x")}, f("Obj", "leaf")), unrelated))
+	out = append(out, mk(fa("Obj", "setc", []argSrc{sv("x")}, f("Obj", "rc"), f("Obj", "mc", f("Obj", "leaf"))), unrelated))
+	if !k.decl.nonnull {
+		// inside a list and inside an input object (an Int! variable is fine there too, kept small)
+		l := glist(gvar("x"), gi(1))
+		o := gobj("m", gvar("x"))
+		out = append(out, mk(&sel{kind: kField, scope: "Obj", name: "lst", args: []argSrc{{kind: srcGen, g: &l}}, hasSet: true, kids: []*sel{f("Obj", "leaf")}}, unrelated))
+		out = append(out, mk(&sel{kind: kField, scope: "Obj", name: "inp", args: []argSrc{{kind: srcGen, g: &o}}, hasSet: true, kids: []*sel{f("Obj", "leaf")}}, unrelated))
+	}
+	// through a fragment
+	d := mk(spread("A"), unrelated)
+	d.frags = []fragDef{{name: "A", cond: "Obj", kids: []*sel{fa("Obj", "d", []argSrc{sv("x"), sv("x")}, f("Obj", "leaf"))}}}
+	out = append(out, d)
+	return out
+}
+
+// apifu routes: a connection whose count is $x, next to one whose count is the unrelated $u: Int = 1
+func apiVarDoc(k varKind, last bool) *doc {
+	apiMode = true
+	defer func() { apiMode = false }()
+	u := varDecl{name: "u", hasDef: true, def: 1}
+	mkConn := func(alias string, args []argSrc) *sel {
+		cs := "Conn:Query:items"
+		node := &sel{kind: kField, scope: "Edge:" + cs, name: "node", alias: alias + "n", hasSet: true,
+			kids: []*sel{{kind: kField, scope: "Item", name: "id", alias: alias + "i"}}}
+		edges := &sel{kind: kField, scope: cs, name: "edges", alias: alias + "e", hasSet: true, kids: []*sel{node}}
+		return &sel{kind: kField, scope: "Query", name: "items", alias: alias, hasSet: true, args: args, kids: []*sel{edges},
+			between: connFields["Query"]["items"].avail}
+	}
+	args := []argSrc{sv("x"), {}}
+	if last {
+		args = []argSrc{{}, sv("x")}
+	}
+	return &doc{ops: []opDef{{name: "Q", kids: []*sel{mkConn("a", args), mkConn("b", []argSrc{{}, sv("u")})}}},
+		vars: []varDecl{k.decl, u}}
 }
 
 // ---------------------------------------------------------------------------------------------
@@ -2133,6 +2260,27 @@ func main() {
 						return []int{-1, 0, dn, a0, up, maxInt}[k]
 					})
 				})
+			}
+		}
+
+		// 1b. systematic: kind of variable x shape of the variable map, direct route (nil and empty map,
+		// only unrelated variables, explicit null, value), each under the limits -1 / exact / one below
+		for _, k := range varKinds("x") {
+			for _, d := range varDocs(k) {
+				for _, sh := range varShapes() {
+					d, sh := d, sh
+					for lk := 0; lk < 3; lk++ {
+						lk := lk
+						h.Case(func(r *rng.R) sexp.Node {
+							return directCase(d, "Q", sh.vars, one, func(a0 int) int {
+								if a0 == unsetMark || a0 <= 0 {
+									return []int{-1, 0, 5}[lk]
+								}
+								return []int{-1, a0, a0 - 1}[lk]
+							})
+						})
+					}
+				}
 			}
 		}
 
@@ -2173,9 +2321,9 @@ func main() {
 		rec(nil, 0)
 
 		// 3. random valid documents: fragments at several depths, variables, contexts, several operations
-		n := 16000
+		n := 11000
 		if h.Thorough() {
-			n = 250000
+			n = 256000
 		}
 		for i := 0; i < n; i++ {
 			h.Case(func(r *rng.R) sexp.Node {
@@ -2185,9 +2333,9 @@ func main() {
 		}
 
 		// 4. hostile: invalid documents, uncoercible variables, negative costs
-		n = 3000
+		n = 2400
 		if h.Thorough() {
-			n = 40000
+			n = 41000
 		}
 		for i := 0; i < n; i++ {
 			h.Case(func(r *rng.R) sexp.Node {
@@ -2211,9 +2359,31 @@ func main() {
 				apis = append(apis, buildAPI(dc))
 			}
 		}
-		n = 3000
+		// 5b. systematic on the apifu routes: kind of variable x how the variables travel (no
+		// "variables" key, null, {}, only unrelated, explicit null, value) x HTTP / graphql-ws / persisted query
+		for _, k := range varKinds("x") {
+			for _, last := range []bool{false, true} {
+				d := apiVarDoc(k, last)
+				for _, route := range []string{"apifu", "apifu-ws", "apifu-pq"} {
+					route := route
+					for _, shape := range []string{"absent", "null"} {
+						shape := shape
+						h.Case(func(r *rng.R) sexp.Node { return runAPI(d, nil, shape, route, apis[1], dcs[1]) })
+					}
+					for _, sh := range varShapes() {
+						if sh.vars == nil {
+							continue
+						}
+						sh := sh
+						h.Case(func(r *rng.R) sexp.Node { return runAPI(d, sh.vars, "map", route, apis[1], dcs[1]) })
+					}
+				}
+			}
+		}
+
+		n = 2400
 		if h.Thorough() {
-			n = 30000
+			n = 31000
 		}
 		for i := 0; i < n; i++ {
 			h.Case(func(r *rng.R) sexp.Node { return apiCase(r, apis, dcs) })
